@@ -274,6 +274,35 @@ def main_met():
             if valid and (mcc.n_timesteps != nmax or any(mcc.get_step(i)[f] != (kc[f][i] if isinstance(kc[f], list) else kc[f]) for i in range(nmax) for f in FIELDS)
                           or (ts is not None and [mcc.get_step(i)["timestamp"] for i in range(nmax)] != kc["timestamps"])):
                 chk.violation("forcing with constant lists %s: %d steps / per-step values do not match the entries" % (kc, mcc.n_timesteps), sc, klass={"check": "constant_lists"})
+    # a forcing EDITED after it was built (a script extends the series of an existing configuration): the step count and the
+    # steps are those of the fields as they are now, and validity is judged on them
+    from bldfm.config_parser import MetConfig as _MC
+
+    for start, edits, want_n, want_valid in (
+            (dict(ustar=0.3, mol=-100.0, wind_speed=3.0, wind_dir=270.0), dict(wind_dir=[0.0, 90.0, 180.0, 270.0]), 4, True),
+            (dict(ustar=[0.3, 0.4], mol=-100.0, wind_speed=3.0, wind_dir=270.0, timestamps=["a", "b"]), dict(ustar=[0.3, 0.4, 0.5], timestamps=["a", "b", "c"]), 3, True),
+            (dict(ustar=[0.3, 0.4], mol=-100.0, wind_speed=3.0, wind_dir=270.0, timestamps=["a", "b"]), dict(ustar=[0.3, 0.4, 0.5]), 3, False),
+            (dict(ustar=[0.3, 0.4, 0.5], mol=-100.0, wind_speed=3.0, wind_dir=[1.0, 2.0, 3.0]), dict(ustar=0.3, wind_dir=5.0), 1, True)):
+        mc = _MC(**start)
+        mc.validate()
+        n0 = mc.n_timesteps            # the count is read once before the edit
+        for k_, v_ in edits.items():
+            setattr(mc, k_, v_)
+        sc = {"kind": "edited_forcing", "start": start, "edits": edits}
+        chk.case(json.dumps(sc, sort_keys=True, default=str))
+        try:
+            mc.validate()
+            ok = True
+        except Exception:
+            ok = False
+        if ok != want_valid:
+            chk.violation("a forcing edited after it was built (%s, then %s) is %s by the property but validate() %s it" % (start, edits, "valid" if want_valid else "invalid", "accepts" if ok else "rejects"), sc, klass={"check": "edited_forcing"})
+            continue
+        if want_valid:
+            vals = {f: (edits.get(f, start.get(f))) for f in FIELDS}
+            steps_ok = mc.n_timesteps == want_n and all(mc.get_step(i)[f] == (vals[f][i] if isinstance(vals[f], list) else vals[f]) for i in range(want_n) for f in FIELDS)
+            if not steps_ok:
+                chk.violation("a forcing edited after it was built (%s, then %s) reports %d steps (it reported %d before the edit); its fields now have %d" % (start, edits, mc.n_timesteps, n0, want_n), sc, klass={"check": "edited_forcing"})
     chk.extra["long_series"] = nlong
     # drivers: the timeseries driver and the CLI loop iterate exactly NSteps times with the right parameters
     from bldfm import run_bldfm_timeseries
@@ -606,10 +635,16 @@ def main_single():
     d = common.scratch("c13_yaml")
     rng = np.random.default_rng(seed() + 5)
     nsup = 0
+    global Z0
+    nz0 = 0
     for e in r.emitted:
         o, m = e["o"], e["m"]
         if e["outcome"] != "done":
             continue
+        # the roughness length of z0-forced points: an ordinary one, water / snow (0.3 mm), tall forest (2.5 m) - whatever the
+        # configuration says is what the run uses
+        nz0 += bool(m["z0"])
+        Z0 = [0.07, 0.0003, 2.5][nz0 % 3] if m["z0"] else 0.07
         nsup += o["src"] == "supplied"
         raw = build_raw(o, m, square=(o["src"] == "supplied" and nsup % 2 == 1))
         cfg = parse_config_dict(copy.deepcopy(raw))
